@@ -109,7 +109,10 @@ def describe_ga(a: GroupAddress) -> str:
     try:
         for f in FMTS.values():
             GroupAddress.address_format = f
-            s = str(a)
+            try:
+                s = str(a)
+            except Exception as e:  # noqa: BLE001
+                s = f"!{type(e).__name__}"
             renders.append(clean(s))
             try:
                 b = GroupAddress(s)
@@ -118,13 +121,13 @@ def describe_ga(a: GroupAddress) -> str:
                 rt += "0"
     finally:
         GroupAddress.address_format = _ORIG_FMT
-    k = a.to_knx()
     try:
-        back = GroupAddress.from_knx(k)
+        k = a.to_knx().hex()
+        back = GroupAddress.from_knx(bytes.fromhex(k))
         knx = "1" if back == a and back.raw == raw else "0"
-    except Exception:  # noqa: BLE001
-        knx = "0"
-    return f"ok {int(raw)} {' '.join(renders)} {k.hex()} rt={rt} knx={knx}"
+    except Exception as e:  # noqa: BLE001
+        k, knx = f"!{type(e).__name__}", "0"
+    return f"ok {int(raw)} {' '.join(renders)} {k} rt={rt} knx={knx}"
 
 
 def describe_ia(a: IndividualAddress) -> str:
@@ -135,13 +138,13 @@ def describe_ia(a: IndividualAddress) -> str:
         rt = "1" if (b == a and b.raw == raw) else "0"
     except Exception:  # noqa: BLE001
         rt = "0"
-    k = a.to_knx()
     try:
-        back = IndividualAddress.from_knx(k)
+        k = a.to_knx().hex()
+        back = IndividualAddress.from_knx(bytes.fromhex(k))
         knx = "1" if back == a and back.raw == raw else "0"
-    except Exception:  # noqa: BLE001
-        knx = "0"
-    return f"ok {int(raw)} {clean(s)} {k.hex()} rt={rt} knx={knx}"
+    except Exception as e:  # noqa: BLE001
+        k, knx = f"!{type(e).__name__}", "0"
+    return f"ok {int(raw)} {clean(s)} {k} rt={rt} knx={knx}"
 
 
 def run_impl(case):
@@ -569,7 +572,7 @@ def generate(rng, tier):
         yield {"op": f"addr ga s:{tok(ga_text(rng, raw, k))}", "fmt": fm[(k + 1) % 3]}
         yield {"op": f"addr ia s:{tok(ia_text(raw))}", "fmt": fm[k]}
     # 5. grammar-directed strings
-    yield from str_cases(rng, 150000 if thorough else 25000)
+    yield from str_cases(rng, 500000 if thorough else 25000)
     # 6. digit runs around the int() limit
     runs = list(long_runs(rng))
     if not thorough:
@@ -580,7 +583,7 @@ def generate(rng, tier):
         yield {"op": f"addr int {tok(s)}"}
     # 7. the int() model: random literals over the interesting alphabet
     alpha = ["0", "1", "5", "9", "_", "+", "-", " ", "\n", "\t", "\x1c", "\xa0", " ", "٣", "７", "²", "x", ".", "\x00"]
-    for _ in range(40000 if thorough else 6000):
+    for _ in range(150000 if thorough else 6000):
         n = rng.choice([1, 2, 3, 4, 5, 8])
         s = "".join(rng.choice(alpha) for _ in range(n))
         if rng.random() < 0.5:
